@@ -161,6 +161,36 @@ def f_flaky2(a: S0) -> S2:
 	return _made(S2(a), 'f_flaky2')
 
 
+class Left:
+	class Item(Obj):
+		fid = 'Left.Item'
+
+		def __init__(self) -> None:
+			super().__init__()
+
+
+class Right:
+	class Item(Obj):
+		fid = 'Right.Item'
+
+		def __init__(self, a: S0) -> None:
+			super().__init__(a)
+
+
+class AlphaProvider:
+	def create(self, a: S0) -> S5:
+		return _made(S5(a), 'AlphaProvider.create')
+
+
+class BetaProvider:
+	def create(self, a: S0, b: S1, n: int) -> S5:
+		return _made(S5(a, b, n), 'BetaProvider.create')
+
+
+ALPHA = AlphaProvider()
+BETA = BetaProvider()
+
+
 class Maker:
 	def make_s0(self) -> S0:
 		return _made(S0(), 'Maker.make_s0')
@@ -171,7 +201,7 @@ class Maker:
 
 MAKER = Maker()
 
-SYMBOLS = {'S0': S0, 'S1': S1, 'S2': S2, 'S3': S3, 'S4': S4, 'S5': S5, 'G0': G0, 'G1': G1, 'G0[int]': G0[int], 'G1[str]': G1[str], 'Locator': Locator}
+SYMBOLS = {'Left.Item': Left.Item, 'Right.Item': Right.Item, 'S0': S0, 'S1': S1, 'S2': S2, 'S3': S3, 'S4': S4, 'S5': S5, 'G0': G0, 'G1': G1, 'G0[int]': G0[int], 'G1[str]': G1[str], 'Locator': Locator}
 ORIGIN = {'G0[int]': 'G0', 'G1[str]': 'G1'}
 
 # factory id -> (callable, product symbol, leading annotated params (symbol names) in order, plain params (python types) in order)
@@ -193,6 +223,10 @@ FACTORIES: dict[str, tuple[Any, str, list[str], list[type]]] = {
 	'f_g1': (f_g1, 'G1', ['S0'], []),
 	'f_flaky': (f_flaky, 'S1', [], []),
 	'f_flaky2': (f_flaky2, 'S2', ['S0'], []),
+	'Left.Item': (Left.Item, 'Left.Item', [], []),
+	'Right.Item': (Right.Item, 'Right.Item', ['S0'], []),
+	'AlphaProvider.create': (ALPHA.create, 'S5', ['S0'], []),
+	'BetaProvider.create': (BETA.create, 'S5', ['S0', 'S1'], [int]),
 	'Maker.make_s0': (MAKER.make_s0, 'S0', [], []),
 	'Maker.make_s2': (MAKER.make_s2, 'S2', ['S0'], []),
 }
@@ -205,4 +239,4 @@ for _fid, (_f, _prod, _lead, _plain) in FACTORIES.items():
 
 # dotted names for by-name registration
 DOTTED = {fid: f'tranpsim.di_universe.{fid}' for fid in FACTORIES if '.' not in fid}
-SYMBOL_PATH = {name: f'{cls.__module__}.{cls.__qualname__}' for name, cls in SYMBOLS.items() if name not in ORIGIN}
+SYMBOL_PATH = {name: f'{cls.__module__}.{cls.__qualname__}' for name, cls in SYMBOLS.items() if name not in ORIGIN and '.' not in name}
